@@ -1,8 +1,8 @@
 (* C15 — property theorems only.  Each is closed by [exact] of a lemma of Proofs*.v and followed by
    Print Assumptions.  The statements are about the executable definitions of Model*.v, i.e. about
    the very functions harness/c15.py evaluates against the real QMI code on every run. *)
-Require Import QV.C15.ModelBase QV.C15.ModelIB QV.C15.ModelUsbtmc QV.C15.ModelT2 QV.C15.ModelScpi QV.C15.ModelApt.
-Require Import QV.C15.ProofsIB QV.C15.ProofsIBLin QV.C15.ProofsUsbtmc QV.C15.ProofsT2 QV.C15.ProofsScpi QV.C15.ProofsApt.
+Require Import QV.C15.ModelBase QV.C15.ModelIB QV.C15.ModelUsbtmc QV.C15.ModelT2 QV.C15.ModelScpi QV.C15.ModelApt QV.C15.ModelAptFields.
+Require Import QV.C15.ProofsIB QV.C15.ProofsIBLin QV.C15.ProofsUsbtmc QV.C15.ProofsT2 QV.C15.ProofsScpi QV.C15.ProofsApt QV.C15.ProofsAptFields.
 Open Scope N_scope.
 
 (* ============================== NKT Interbus ========================================== *)
@@ -137,6 +137,41 @@ Theorem C15_usbtmc_in : forall mts tag cs extra,
 Proof. exact read_raw_conforming. Qed.
 Print Assumptions C15_usbtmc_in.
 
+(* read_raw(num) with num > 0, any device (also one that sends more than asked): the host asks for
+   min(max_transfer_size, bytes still wanted) per transfer, stops when it has num bytes or at EOM,
+   returns the chunks exchanged up to then unmodified (NOT truncated to num), and never touches
+   the transfers after that (they stay with the device; no abort is sent) *)
+Theorem C15_usbtmc_in_limited_served : forall mts tag cs extra num,
+  0 < num -> cs <> [] -> Forall (fun c => len (chunk_data c) < 4294967296) cs ->
+  read_raw (Z.of_N num) mts tag (dev_script cs ++ extra) =
+    mk_rd (reqs_of tag (served num mts cs))
+          (Nat.iter (length (served num mts cs)) next_tag tag)
+          (Ok (concat (map (fun wc => chunk_data (snd wc)) (served num mts cs)))).
+Proof. exact read_raw_limited. Qed.
+Print Assumptions C15_usbtmc_in_limited_served.
+
+(* ... and with a conforming device (never more than the requested TransferSize per transfer): the
+   value returned is exactly the first num bytes of the message (the whole message if it is
+   shorter), however the device cuts it; every requested size is <= max_transfer_size and <= num *)
+Theorem C15_usbtmc_in_limited : forall mts tag cs extra num,
+  0 < num -> cs <> [] -> Forall (fun c => len (chunk_data c) < 4294967296) cs ->
+  Forall (fun wc => len (chunk_data (snd wc)) <= fst wc) (served num mts cs) ->
+  rd_res (read_raw (Z.of_N num) mts tag (dev_script cs ++ extra)) =
+    Ok (firstn (N.to_nat num) (concat (map chunk_data cs))) /\
+  rd_reqs (read_raw (Z.of_N num) mts tag (dev_script cs ++ extra)) = reqs_of tag (served num mts cs) /\
+  Forall (fun wc => fst wc = N.min mts (fst wc) /\ fst wc <= num) (served num mts cs).
+Proof. exact read_raw_limited_conforming. Qed.
+Print Assumptions C15_usbtmc_in_limited.
+
+(* vendor quirk: an Advantest/ADCMT device (idVendor 0x1334) gets max_transfer_size 63; every
+   message is still reassembled exactly and no transfer exceeds 12 + 63 + alignment bytes *)
+Theorem C15_usbtmc_out_advantest : forall id_product data tag,
+  data <> [] -> tag <= 255 ->
+  exists ts t', write_raw_quirk 4916 id_product data tag = Some (ts, t') /\
+                dev_recv tag ts = Some (data, t') /\ Forall (fun tr => (length tr <= 12 + 63 + 3)%nat) ts.
+Proof. exact write_raw_advantest. Qed.
+Print Assumptions C15_usbtmc_out_advantest.
+
 (* ============================== PicoQuant T2 ============================================ *)
 
 Theorem C15_t2_split : forall a ovf b,
@@ -180,6 +215,26 @@ Theorem C15_t2_fields : forall r, r < 4294967296 ->
   rec_type r = r / PERIOD /\ rec_type r < 128 /\ rec_tag r = r mod PERIOD /\ r = rec_type r * PERIOD + rec_tag r.
 Proof. exact rec_fields. Qed.
 Print Assumptions C15_t2_fields.
+
+(* physical meaning across the uint64 wrap: for ANY true overflow count T (beyond 2^39, where
+   T*2^25 leaves uint64, and beyond 2^64, where the counter itself wraps) the decoder holding
+   T mod 2^64 emits the true events one for one, in order, same type, timestamp = true time mod
+   2^64, and its counter stays congruent: nothing is lost or duplicated at the wrap *)
+Theorem C15_t2_refines_true : forall recs T,
+  t2_decode (T mod W64) recs = (fst (t2_true T recs) mod W64, map wrap_ev (snd (t2_true T recs))).
+Proof. exact t2_refines_true. Qed.
+Print Assumptions C15_t2_refines_true.
+Theorem C15_t2_no_loss_at_wrap : forall recs T,
+  length (snd (t2_decode (T mod W64) recs)) = length (snd (t2_true T recs)) /\
+  map fst (snd (t2_decode (T mod W64) recs)) = map fst (snd (t2_true T recs)).
+Proof. exact t2_no_loss. Qed.
+Print Assumptions C15_t2_no_loss_at_wrap.
+(* while all true times are below 2^64 the timestamps ARE the true times *)
+Theorem C15_t2_exact_below_wrap : forall recs T,
+  Forall (fun e => snd e < W64) (snd (t2_true T recs)) ->
+  snd (t2_decode (T mod W64) recs) = snd (t2_true T recs).
+Proof. exact t2_exact. Qed.
+Print Assumptions C15_t2_exact_below_wrap.
 
 (* ============================== SCPI ==================================================== *)
 
@@ -235,6 +290,33 @@ Theorem C15_scpi_ask_missing_terminator : forall cmd ct rt resp,
 Proof. exact ask_missing_terminator. Qed.
 Print Assumptions C15_scpi_ask_missing_terminator.
 
+(* the reply delivered in ANY sequence of transfers (cuts anywhere: between '#' and the digit count,
+   inside the length digits, inside data or terminator; empty transfers) reads exactly like the
+   concatenation: same outcome (data or error class) and same unread bytes *)
+Theorem C15_scpi_block_split : forall flag term transfers,
+  read_block flag term (concat transfers) =
+    (fst (read_block_chunked flag term transfers), cflat (snd (read_block_chunked flag term transfers))).
+Proof. exact read_block_split. Qed.
+Print Assumptions C15_scpi_block_split.
+Theorem C15_scpi_block_split_roundtrip : forall (flag : bool) (term : list N) nd data rest transfers,
+  (1 <= nd <= 9)%nat -> len data < 10 ^ N.of_nat nd ->
+  concat transfers = encode_block nd data ++ (if flag then term else []) ++ rest ->
+  fst (read_block_chunked flag term transfers) = Ok data /\
+  cflat (snd (read_block_chunked flag term transfers)) = rest.
+Proof. exact read_block_split_roundtrip. Qed.
+Print Assumptions C15_scpi_block_split_roundtrip.
+
+(* write / ask with a command that is not pure ASCII: UnicodeEncodeError, nothing is written *)
+Theorem C15_scpi_write_ascii : forall cmd ct, ascii cmd = true -> scpi_write cmd ct = Ok [cmd ++ ct].
+Proof. exact scpi_write_ascii. Qed.
+Print Assumptions C15_scpi_write_ascii.
+Theorem C15_scpi_write_nonascii : forall cmd ct, ascii cmd = false -> scpi_write cmd ct = Err EUniEnc.
+Proof. exact scpi_write_nonascii. Qed.
+Print Assumptions C15_scpi_write_nonascii.
+Theorem C15_scpi_ask_nonascii : forall cmd ct rt r, ascii cmd = false -> ask cmd ct rt r = ([], Err EUniEnc).
+Proof. exact ask_nonascii. Qed.
+Print Assumptions C15_scpi_ask_nonascii.
+
 (* ============================== Thorlabs APT ============================================ *)
 
 Theorem C15_apt_header_params : forall id p1 p2 d s,
@@ -275,6 +357,41 @@ Theorem C15_apt_ask_sound : forall expect sizeof s out rest,
     sizeof <= len data /\ out = firstn (N.to_nat sizeof) data.
 Proof. exact apt_ask_sound. Qed.
 Print Assumptions C15_apt_ask_sound.
+
+(* HEADER_ONLY packet types: ask checks that six bytes arrive and nothing else; in particular the
+   message id of the reply is NOT compared with the expected one *)
+Theorem C15_apt_ask_header_only : forall expect sizeof s,
+  apt_ask true expect sizeof s =
+    match take 6 s with None => (Err ETimeout, s) | Some (h, r) => (Ok h, r) end.
+Proof. exact apt_ask_header_only_spec. Qed.
+Print Assumptions C15_apt_ask_header_only.
+Theorem C15_apt_ask_header_only_id_unchecked : forall e1 e2 z1 z2 s, apt_ask true e1 z1 s = apt_ask true e2 z2 s.
+Proof. exact apt_ask_header_only_id_unchecked. Qed.
+Print Assumptions C15_apt_ask_header_only_id_unchecked.
+
+(* field by field, generic over every well-formed layout table (instantiated per packet class in
+   coq/gen/C15AptLayouts.v from the ctypes _fields_): unpack (pack values) = values for all in-range
+   values (unsigned, two's complement signed, chars, arrays), and the packet has exactly sizeof bytes *)
+Theorem C15_apt_fields_roundtrip : forall L sizeof, layout_wf L sizeof = true -> forall vss rest,
+  values_ok L vss ->
+  unpack L (pack L vss ++ rest) = vss /\ len (pack L vss) = sizeof /\ sizeof < 65536.
+Proof. exact fields_roundtrip. Qed.
+Print Assumptions C15_apt_fields_roundtrip.
+(* device -> driver: header with the expected id + packed fields: ask returns bytes that unpack to
+   exactly those field values *)
+Theorem C15_apt_ask_fields : forall L sizeof expect dst src vss rest,
+  layout_wf L sizeof = true -> values_ok L vss -> expect < 65536 -> dst < 256 -> src < 256 ->
+  exists bytes, apt_ask false expect sizeof (hdr_data expect sizeof dst src ++ pack L vss ++ rest) = (Ok bytes, rest) /\
+                unpack L bytes = vss.
+Proof. exact apt_ask_fields. Qed.
+Print Assumptions C15_apt_ask_fields.
+(* driver -> device *)
+Theorem C15_apt_write_fields : forall L sizeof dev host id vss,
+  layout_wf L sizeof = true -> values_ok L vss -> dev < 256 -> host < 256 -> id < 65536 ->
+  exists h, write_data_command dev host id (pack L vss) = h ++ pack L vss /\
+            unpack_data h = Some (id, sizeof, N.lor dev 128, host) /\ unpack L (pack L vss) = vss.
+Proof. exact apt_write_fields. Qed.
+Print Assumptions C15_apt_write_fields.
 
 (* ============================== non-vacuity ============================================= *)
 (* data made of the three reserved bytes, register number 0x5E *)
@@ -337,3 +454,53 @@ Example C15_ex_apt :
   apt_ask false 1169 14 ([146; 4; 14; 0; 129; 80] ++ [1; 0; 1; 2; 3; 4; 5; 6; 7; 8; 9; 10; 11; 12] ++ [99])
     = (Err EInstr, [99]).
 Proof. vm_compute. repeat split; reflexivity. Qed.
+
+(* ---- second round ---- *)
+(* read_raw(5): device holds 1..9 and answers 3 + 2 (asked 4, then 2); third chunk never requested *)
+Example C15_ex_usbtmc_in_limited :
+  let cs := [([1; 2; 3], [0], 1, 254); ([4; 5], [], 2, 253); ([6; 7; 8; 9], [], 3, 252)] in
+  served 5 4 cs = [(4, ([1; 2; 3], [0], 1, 254)); (2, ([4; 5], [], 2, 253))] /\
+  read_raw 5 4 255 (dev_script cs) =
+    mk_rd [[2; 1; 254; 0; 4; 0; 0; 0; 0; 0; 0; 0]; [2; 2; 253; 0; 2; 0; 0; 0; 0; 0; 0; 0]] 2 (Ok [1; 2; 3; 4; 5]).
+Proof. vm_compute. split; reflexivity. Qed.
+(* a device that ignores the requested size: everything it sent is returned, more than num *)
+Example C15_ex_usbtmc_in_oversend :
+  rd_res (read_raw 2 4 0 (dev_script [([1; 2; 3; 4; 5; 6], [], 1, 254)])) = Ok [1; 2; 3; 4; 5; 6].
+Proof. vm_compute. reflexivity. Qed.
+Example C15_ex_usbtmc_advantest :
+  vendor_quirks 4916 0 = (63, true, false, false) /\ vendor_quirks 6833 1230 = (1048576, false, true, true) /\
+  match write_raw_quirk 4916 0 (repeat 7 64) 0 with Some (ts, t) => (map (@length N) ts, t) | None => ([], 0) end
+    = ([76; 16]%nat, 2).
+Proof. vm_compute. repeat split; reflexivity. Qed.
+
+(* true overflow count 2^64 - 1, then an overflow record of 2: the counter wraps to 1, the event
+   before keeps type and order, timestamps are the true times mod 2^64 *)
+Example C15_ex_t2_wrap :
+  t2_true 18446744073709551615 [33554437; 4261412866; 33554438] =
+    (18446744073709551617, [(1, 618970019642690137416007685); (1, 618970019642690137483116550)]) /\
+  t2_decode (18446744073709551615 mod W64) [33554437; 4261412866; 33554438] =
+    (1, [(1, 18446744073675997189); (1, 33554438)]).
+Proof. vm_compute. split; reflexivity. Qed.
+
+(* "#210ABCDEFGHIJ\n" delivered as "#" "2" "1" "0A" "" "BCDEFGHIJ\n": cuts inside the header digits *)
+Example C15_ex_scpi_split :
+  read_block_chunked true [10] [[35]; [50]; [49]; [48; 65]; []; [66; 67; 68; 69; 70; 71; 72; 73; 74; 10]] =
+    (Ok [65; 66; 67; 68; 69; 70; 71; 72; 73; 74], ([], [])) /\
+  read_block true [10] [35; 50; 49; 48; 65; 66; 67; 68; 69; 70; 71; 72; 73; 74; 10] =
+    (Ok [65; 66; 67; 68; 69; 70; 71; 72; 73; 74], []).
+Proof. vm_compute. split; reflexivity. Qed.
+Example C15_ex_scpi_nonascii :
+  scpi_write [77; 181] [10] = Err EUniEnc /\ ask [77; 181] [10] [10] (RMsg [49; 10]) = ([], Err EUniEnc).
+Proof. vm_compute. split; reflexivity. Qed.
+
+(* MOT_GET_USTATUSUPDATE layout; position -2, motor_current -1 *)
+Example C15_ex_apt_fields :
+  let L := [(FU 2, 1); (FS 4, 1); (FU 2, 1); (FS 2, 1); (FU 4, 1)]%nat in
+  layout_wf L 14 = true /\
+  pack L [[1]; [-2]; [3]; [-1]; [2147484672]]%Z = [1; 0; 254; 255; 255; 255; 3; 0; 255; 255; 0; 4; 0; 128] /\
+  unpack L [1; 0; 254; 255; 255; 255; 3; 0; 255; 255; 0; 4; 0; 128] = [[1]; [-2]; [3]; [-1]; [2147484672]]%Z.
+Proof. vm_compute. repeat split; reflexivity. Qed.
+(* a MOT_MOVE_COMPLETED header (0x0464) is returned when MOT_MOVE_HOMED (0x0444) was expected *)
+Example C15_ex_apt_header_only_unchecked :
+  apt_ask true 1092 6 [100; 4; 1; 0; 1; 80] = (Ok [100; 4; 1; 0; 1; 80], []).
+Proof. vm_compute. reflexivity. Qed.
